@@ -3,6 +3,7 @@
 mod routing_test;
 
 use super::*;
+use crate::format::Location;
 use crate::utils::combine_error_results;
 use std::collections::HashSet;
 use vrp_core::prelude::Float;
@@ -67,19 +68,29 @@ fn check_e1503_no_matrix_when_indices_used(
 /// Checks that coord index has a proper maximum index for
 fn check_e1504_index_size_mismatch(ctx: &ValidationContext) -> Result<(), FormatError> {
     let max_index = ctx.coord_index.max_matrix_index();
+    // NOTE: max index is derived from the amount of unique locations, so a location index can still be outside the matrix
+    let has_index_outside = |matrix_size: usize| {
+        ctx.coord_index
+            .unique()
+            .iter()
+            .any(|location| matches!(location, Location::Reference { index } if *index >= matrix_size))
+    };
 
     let (matrix_size, is_correct_index) = ctx
         .matrices
         .and_then(|matrices| matrices.first())
         .map(|matrix| (matrix.distances.len() as Float).sqrt().round() as usize)
-        .map_or((0_usize, true), |matrix_size| (matrix_size, max_index + 1 == matrix_size));
+        .map_or((0_usize, true), |matrix_size| {
+            (matrix_size, max_index + 1 == matrix_size && !has_index_outside(matrix_size))
+        });
 
     if !is_correct_index {
         Err(FormatError::new(
             "E1504".to_string(),
             "amount of locations does not match matrix dimension".to_string(),
             format!(
-                "check matrix size: max location index '{max_index}' + 1 should be equal to matrix size ('{matrix_size}')"
+                "check matrix size: max location index '{max_index}' + 1 should be equal to matrix size ('{matrix_size}'), \
+                 location indices should be less than matrix size"
             ),
         ))
     } else {
